@@ -41,4 +41,6 @@ def all_units():
         units_ct.register(add)
         import units_err
         units_err.register(add)
+        import units_fp
+        units_fp.register(add)
     return list(_units)
